@@ -418,10 +418,19 @@ def rule_pool(ctx: Ctx) -> None:
     P = ctx.prog
     me = P.func("pipefunc.map._run._maybe_executor")
     withs = [w for w in walk_no_nested(me.node) if isinstance(w, ast.With) and any("ProcessPoolExecutor" in norm(i.context_expr) for i in w.items)]
-    ok = bool(withs) and any(isinstance(y, ast.Yield) for y in ast.walk(withs[0]))
     created = [c for c in ast.walk(me.node) if isinstance(c, ast.Call) and dotted(c.func).endswith("ProcessPoolExecutor")]
-    ok = ok and len(created) == 1
-    ctx.add("5-pool", me, withs[0] if withs else me.node, ok, "the default pool lives inside a `with` around the yield" if ok else "the default ProcessPoolExecutor is not created in a `with`: a failing run leaves the pool running", key="pool-with")
+    # ... or entered into an ExitStack whose `with` encloses the yield: leaving the stack shuts the pool down just the same
+    stacks = {i.optional_vars.id: w for w in walk_no_nested(me.node) if isinstance(w, ast.With) for i in w.items
+              if isinstance(i.optional_vars, ast.Name) and dotted(i.context_expr.func if isinstance(i.context_expr, ast.Call) else i.context_expr).rsplit(".", 1)[-1] in ("ExitStack", "AsyncExitStack")}
+    entered = [c for c in ast.walk(me.node) if isinstance(c, ast.Call) and isinstance(c.func, ast.Attribute) and c.func.attr == "enter_context" and isinstance(c.func.value, ast.Name) and c.func.value.id in stacks
+               and c.args and any(x in created for x in ast.walk(c.args[0]))]
+    managed_with = [w for w in withs if any(isinstance(y, ast.Yield) for y in ast.walk(w))]
+    managed_stack = [c for c in entered if any(isinstance(y, ast.Yield) for y in ast.walk(stacks[c.func.value.id])) and any(x is c for x in ast.walk(stacks[c.func.value.id]))]
+    closed_by_hand = any(isinstance(c, ast.Call) and isinstance(c.func, ast.Attribute) and c.func.attr == "shutdown" for t_ in ast.walk(me.node) if isinstance(t_, ast.Try) for f_ in t_.finalbody for c in ast.walk(f_))
+    ok = len(created) == 1 and bool(managed_with or managed_stack)
+    ctx.tri("5-pool", me, (withs or created or [me.node])[0], ok, bool(created) and not (managed_with or managed_stack) and not closed_by_hand and not entered and not withs,
+            "the default pool lives inside a `with` (or an ExitStack) around the yield", "the default ProcessPoolExecutor is not created in a `with`: a failing run leaves the pool running",
+            "how the default pool is shut down was not recognised", key="pool-with")
     for q in ("pipefunc.map._run.run_map", "pipefunc.map._run.run_map_async._run_pipeline"):
         f = P.func(q)
         w = [x for x in walk_no_nested(f.node) if isinstance(x, ast.With) and any("_maybe_executor" in norm(i.context_expr) for i in x.items)]
